@@ -15,5 +15,29 @@ TEXT = {
  "C14": dict(
    text="Theorem books_under_faults (C4E/Props/C14.lean): the C03 identity holds after every block for every pattern of failing sweeps, payouts and burns; a failed payout stores the state unchanged; a failed sweep leaves the source untouched. On the real keeper a fault-injecting bank wrapper fails chosen calls; invariants are evaluated after every block and final balances are compared with a fault-free twin run (<= 1 base unit). Known finding D25 (source shared by two sub-distributors) is reported as KNOWN-FINDING.",
    note=NOTE, technique="Lean 4 invariant proof over arbitrary fault oracles + fault-injection differential runs and fault-free twin comparison on the Go keeper"),
+ "C05": dict(
+   text="Theorems (C4E/Props/C05.lean): withdrawals and sends keep every pool solvent (0 <= withdrawn, sent; withdrawn+sent <= initially locked); what a withdrawal pays is exactly the decrease of the pools' locked sum; a rejected message leaves the state untouched (deliver). The backing identity (module balance = sum of locked) over whole histories is carried by the correspondence runs (model pools, balances and invariant verdicts vs the real keeper after every message) and by the three registered invariants evaluated on the real state; a monitor also flags handlers that fail after writing pools or balances (pre-rollback).",
+   note=NOTE, technique="Lean 4 lemmas on pool solvency / rollback + differential correspondence + registered-invariant monitors on the Go keeper"),
+ "C06": dict(
+   text="Theorems (C4E/Props/C06.lean): nothing is withdrawable before lock end, everything at/after it (boundary included); two withdrawals pay together exactly what one at the later time pays, a repeated withdrawal of a matured pool pays zero; the query reports the function the withdrawal pays from. Correspondence compares paid amount, pools and balances exactly; a monitor on the real code checks owner balance delta = response = same-block pool query.",
+   note=NOTE, technique="Lean 4 theorems on the time-lock function + exact differential comparison + query/withdraw monitor on the Go keeper"),
+ "C07": dict(
+   text="Theorem unlock_exact (C4E/Props/C07.lean, kernel-checked with three non-linear integer lemmas): for every original vesting >= 1, every 18-digit vesting scalar in [0,1) and every 1 <= u <= still-vesting, the repaired split arithmetic lowers the sender's still-vesting coins by exactly u and never makes the original vesting negative; orig_over_releases is a decide-checked witness that the unchanged arithmetic released u+1. Correspondence compares account records and balances after split/move exactly; monitors on the real state check sender locked delta, spendable unchanged, recipient locked/schedule, later-time drift bound and splittability.",
+   note=NOTE, technique="Lean 4 proof of the split arithmetic (nlinarith, all amounts and times) + exact differential comparison + exactness monitors on the Go keeper"),
+ "C08": dict(
+   text="Theorems (C4E/Props/C08.lean): the vesting part computed by the pool send equals floor(amount*(1-free)) exactly for every amount >= 0 and free in [0,1], lies in [0, amount], is amount for free=0 and 0 for free=1; start is max(lockEnd, now). Account records, balances and pool counters after send / direct creation are compared exactly with the real keeper.",
+   note=NOTE, technique="Lean 4 theorems on the vesting-part formula + exact differential comparison against the Go keeper"),
+ "C09": dict(
+   text="Theorems (C4E/Props/C09.lean): the two primitives that write account records in the vesting handlers never touch another address's record, and direct creation, pool send and split/move reject an existing recipient before anything is written. The full statement over deliver stays visible (existing_untouched_full). On the real chain state a monitor compares the JSON auth record of every pre-existing address before and after every message (only the sender's original vesting may change in a successful split/move).",
+   note=NOTE, technique="Lean 4 lemmas on account-record writes + byte-level auth-record monitor on the Go keeper over all target-address states"),
+ "C17": dict(
+   text="Theorems (C4E/Props/C17.lean): the trace written for a split/move recipient is genesis-derived exactly when the sender's is, for a pool-send recipient exactly when the pool is a genesis pool, and this is preserved along chains of any depth; summary shape (total = pools + accounts, delegated = vesting - locked). Traces and both summary queries are compared exactly with the real keeper, and a monitor recomputes the summaries from bank and auth state.",
+   note=NOTE, technique="Lean 4 lineage lemmas (induction over chain depth) + exact differential comparison + recomputation monitor"),
+ "C18": dict(
+   text="Theorems (C4E/Props/C18.lean): withdrawal events (one per paying pool, carrying that pool's amount) add up to the coins paid; no event for a pool that paid nothing. Mint, Distribution/Burn and WithdrawAvailable event payloads of the real code are compared exactly with the model's, and monitors check mint event = supply delta and withdrawal events sum = owner balance delta.",
+   note=NOTE, technique="Lean 4 theorem on event sums + exact differential comparison of typed event payloads"),
+ "C19": dict(
+   text="Theorems (C4E/Props/C19.lean): inflation is zero before start, for no-minting and for an ended exponential period; for a linear period inflation*supply brackets amount*year/period within the two integer truncations; the exponential rate uses the same per-step amount as the minting function. The Inflation query and the Mint event's inflation are compared exactly with the model.",
+   note=NOTE, technique="Lean 4 theorems on the inflation formula + exact differential comparison against the Go keeper"),
 }
 NA_REASON = {}
